@@ -538,6 +538,7 @@ where
         if state.counter.0.is_some() || state.counter.1.is_some() {
             crate::verif::log(crate::verif::Rec::Counters {
                 mi,
+                state: self.runtime[mi].current_state,
                 old: (old_value_a, old_value_b),
                 new: (self.runtime[mi].counter_a, self.runtime[mi].counter_b),
             });
